@@ -36,6 +36,6 @@ for p in case["policies"]:
         pol = RP.gamma(rate=p["rate"], coefficient=p["coefficient"], num_invocations=p["n"], start=start)
     else:
         pol = RP.fixed_gamma(variable_arrival_rate=p["rate"], base_arrival_rate=p["base_rate"], coefficient=p["coefficient"], num_invocations=p["n"], start=start)
-    times = pol.get_release_times(completion_time=EventTime(10**9, US))
-    out.append([t.to(US).time for t in times])
+    # one policy object serves several JobGraphs (the loader's --replication_factor shares it): every call counts
+    out.append([[t.to(US).time for t in pol.get_release_times(completion_time=EventTime(10**9, US))] for _ in range(p.get("calls", 1))])
 print(json.dumps(out))
